@@ -173,6 +173,25 @@ pub fn law(ctx: &Ctx, fam: Fam, ft: Ft, n: u64) {
         }
     }
     // a case of the sampled part is one bin of the layer-aligned partition (evaluations = bins tested)
+    // T5 atom test on the primitive itself (a constant fallback in the tail loop would be an atom)
+    {
+        use crate::stats::{atom_candidates, atom_rejections, Src};
+        let m: usize = if ctx.thorough() { 1 << 26 } else { 1 << 24 };
+        let src = Src::Dyn(s.as_ref());
+        let raw = src.raw(m, seed);
+        let rej = atom_rejections(&lawr, &sl, ft, &atom_candidates(&raw, 2), m as u64);
+        drop(raw);
+        if !rej.is_empty() {
+            let raw2 = src.raw(4 * m, hseed(&[seed, 0xC0F1]));
+            let c2: Vec<(f64, u64)> = rej.iter().map(|r| (r.at, raw2.iter().filter(|&&v| v == r.at).count() as u64)).collect();
+            for r in atom_rejections(&lawr, &sl, ft, &c2, 4 * m as u64) {
+                if rej.iter().any(|f| f.same_stat(&r)) {
+                    confirmed.push(r);
+                }
+            }
+        }
+        ctx.class(&format!("atom_test_draws:{:?}:{:?}", fam, ft), m as u64);
+    }
     ctx.eval(eb.len() as u64 + 1);
     ctx.class(&format!("draws:{:?}:{:?}", fam, ft), n);
     // non-trivial bins: expected count >= 1000
